@@ -33,6 +33,7 @@ IdPG(c) == <<DQ>> \o Dbl(c, DQ, 1) \o <<DQ>>                   \* standard SQL: 
 Render(ts, pg, br) ==
     LET one(t) == CASE t.k = "lit" -> IF "bs" \in DOMAIN t THEN LitText2(t.c) ELSE LitText(t.c)
                     [] t.k = "id"  -> IF pg THEN IdPG(t.c) ELSE IdMy(t.c)
+                    [] t.k = "idbt" -> IdMy(t.c)
                     [] t.k = "lb"  -> IF br THEN <<91>> ELSE ARRAYP
                     [] t.k = "rb"  -> IF br THEN <<93>> ELSE <<41>>
                     [] OTHER       -> t.c
@@ -46,9 +47,14 @@ Contents(A, lo) == UNION {[1..n -> A] : n \in lo..MaxContent}
 Lits == {Lit(c) : c \in Contents(LitAlpha, 0)} \cup {[k |-> "lit", c |-> c, bs |-> TRUE] : c \in Contents(LitAlpha, 1)}
 Ids  == {Id(c) : c \in Contents(IdAlpha, 1)}
 \* identifier / literal pairs for the quoting option
+\* a back-quoted identifier may stand in the double-quoted spelling as it is (it is not rewritten); one ending in a backslash, followed
+\* by double-quoted tokens, shows whether the rewriter knows that a backslash means nothing inside back quotes
+IdBT(c) == [k |-> "idbt", c |-> c]
 QuoteSeqs == {<<a>> : a \in Lits \cup Ids} \cup {<<a, Ch(44), b>> : a \in Ids, b \in Lits \cup Ids} \cup {<<a, Ch(61), b>> : a \in Lits, b \in Ids}
+             \cup {<<IdBT(c), Ch(44), b>> : c \in {<<107, BS>>, <<BS>>, <<107, BS, BT>>, <<107>>}, b \in {Id(<<110>>), Id(<<DQ>>), Lit(<<DQ>>), Lit(<<97>>)}}
 \* bracket structures (balanced or not) around a few literals / identifiers for the array option
-BrTok == {LB, RB, Ch(49), Lit(<<91>>), Lit(<<93, SQ>>), Lit(<<BS>>), Id(<<91, 97>>), Id(<<BT, 93>>)}
+\* (the last identifier ends in a backslash: inside back quotes a backslash is a character like any other)
+BrTok == {LB, RB, Ch(49), Lit(<<91>>), Lit(<<93, SQ>>), Lit(<<BS>>), Id(<<91, 97>>), Id(<<BT, 93>>), Id(<<97, BS>>)}
 BrSeqs == UNION {[1..n -> BrTok] : n \in 1..MaxBrTokens}
 
 Init == /\ \/ \E ts \in QuoteSeqs : cs = [fam |-> "quotes", ts |-> ts, text |-> Render(ts, TRUE, FALSE)]
@@ -62,7 +68,7 @@ Spec == Init /\ [][Next]_vars
 Done == pc = "done"
 \* what the tokenizer must see: the tokens themselves
 Expected(ts) == [i \in 1..Len(ts) |-> CASE ts[i].k = "lit" -> [k |-> "str", c |-> ts[i].c]
-                                        [] ts[i].k = "id" -> [k |-> "ident", c |-> ts[i].c]
+                                        [] ts[i].k \in {"id", "idbt"} -> [k |-> "ident", c |-> ts[i].c]
                                         [] OTHER -> [k |-> "ch", c |-> ts[i].c[1]]]
 \* the MySQL spelling is read back as the tokens (sanity of the reference spelling)
 ReferenceReads == (Done /\ cs.fam = "quotes") => MyTokens(Render(cs.ts, FALSE, FALSE)) = Expected(cs.ts)
